@@ -30,7 +30,7 @@ def showDesc (d : Desc) : String :=
   if d.accessor then s!"acc:-{b01 d.enumerable}{b01 d.configurable}"
   else s!"{showSem d.value.sem}:{b01 d.writable}{b01 d.enumerable}{b01 d.configurable}"
 
-def step (s : Indexed) (toks : List String) : Indexed × String :=
+def stepStorage (s : Indexed) (toks : List String) : Indexed × String :=
   match toks with
   | ["reset"] => (.denseI32 [], "ok")
   | ["insert", k, v, a] =>
@@ -52,4 +52,36 @@ def step (s : Indexed) (toks : List String) : Indexed × String :=
     (s, " ".intercalate all ++ " | " ++ ",".intercalate (keys.map toString))
   | _ => (s, "bad-op")
 
-def main : IO Unit := serve step (.denseI32 [])
+def showSemVal : Option Sem → String
+  | some x => showSem x
+  | none => "undef"
+
+def dumpJs (a : JsArr) : String :=
+  let keys := sortNat a.st.keys
+  let all := keys.filterMap (fun k => (a.st.get k).map (fun d => s!"{k}={showDesc d}"))
+  (s!"v={a.st.variantName} len={a.len} " ++ " ".intercalate all).trimAsciiEnd.toString
+
+structure DS where
+  s : Indexed := .denseI32 []
+  js : JsArr := {}
+
+def step (st : DS) (toks : List String) : DS × String :=
+  match toks with
+  | ["jsreset"] => ({ st with js := {} }, "ok")
+  | ["aset", k, v] =>
+    (match k.toNat?, parseVal v with
+     | some k, some v => let a := jsSet st.js k v; ({ st with js := a }, dumpJs a)
+     | _, _ => (st, "bad-op"))
+  | ["aget", k] => (match k.toNat? with | some k => (st, showSemVal (jsGet st.js k)) | none => (st, "bad-op"))
+  | ["apush", v] =>
+    (match parseVal v with
+     | some v => let a : JsArr := { st := (st.js.st.insert st.js.len (plain v)).1, len := st.js.len + 1 }; ({ st with js := a }, dumpJs a)
+     | none => (st, "bad-op"))
+  | ["ashift"] => let (r, a) := jsShift st.js; ({ st with js := a }, s!"r={showSemVal r} {dumpJs a}")
+  | ["adel", k] =>
+    (match k.toNat? with
+     | some k => let a : JsArr := { st.js with st := (st.js.st.remove k).1 }; ({ st with js := a }, dumpJs a)
+     | none => (st, "bad-op"))
+  | _ => let (s', out) := stepStorage st.s toks; ({ st with s := s' }, out)
+
+def main : IO Unit := serve step {}
